@@ -15,7 +15,8 @@
    error; every error is observed as "rejected", so the model checks first ([checks_v1]) and
    converts afterwards ([convert_v1]) — observationally the same.
    External validators are oracles (Section variables): robfig/cron (crontab), apimachinery
-   LabelSelectorAsSelector (label selectors), time.ParseDuration (settings), the webhook
+   LabelSelectorAsSelector (label selectors: keys and values; its operator-versus-values rule is
+   written out, [lsel_opvals_ok]), time.ParseDuration (settings), the webhook
    validation adapted from kubernetes (IsFullyQualifiedName, rules, timeout range, selectors).
    No proofs in this file. *)
 From Coq Require Import String.
@@ -239,8 +240,20 @@ Section Oracles.
   (* schema.ParseGroupVersion: at most one "/" *)
   Definition api_version_ok (s : bytes) : bool := Nat.leb (length (filter (N.eqb 47) s)) 1.
 
+  (* FormatLabelSelector = metav1.LabelSelectorAsSelector.  Its operator-versus-values rule is written
+     out (labels.NewRequirement: "for 'in', 'notin' operators, values set can't be empty", "values set
+     must be empty for exists and does not exist"); everything else it checks (label keys, label
+     values) stays with the oracle. *)
+  Definition lexpr_opvals_ok (e : json) : bool :=
+    let op := get_str (bs "operator") e in
+    let vals := get_arr (bs "values") e in
+    if bytes_eqb op (bs "In") || bytes_eqb op (bs "NotIn") then negb (is_nil vals)
+    else if bytes_eqb op (bs "Exists") || bytes_eqb op (bs "DoesNotExist") then is_nil vals
+    else true.                                   (* any other operator: the schema's enum rejects it *)
+  Definition lsel_opvals_ok (s : json) : bool := forallb lexpr_opvals_ok (get_arr (bs "matchExpressions") s).
+
   Definition opt_sel_ok (k : bytes) (j : json) : bool :=
-    match jget k j with Some s => label_selector_ok s | None => true end.
+    match jget k j with Some s => lsel_opvals_ok s && label_selector_ok s | None => true end.
 
   (* CheckOnKubernetesEvent *)
   Definition check_kube (j : json) : bool :=
